@@ -71,7 +71,7 @@ func c12Hash(id int) types.Hash256 {
 
 // ids of the hashes of one case; equal id <-> equal value
 type c12IDs struct {
-	expUH types.Address // contractUnlockConditions(hostKey, renterKey).UnlockHash() of the case = id 1
+	expUH types.Address // c12UC(hostKey, renterKey).UnlockHash() of the case = id 1
 	uhs   map[types.Address]int
 	roots map[types.Hash256]int
 }
@@ -841,4 +841,12 @@ func c12MonitorAccepted(mon c12Monitor, what string, cfg c12Cfg, walletAddr type
 	if want := new(big.Int).Sub(fc.ValidProofOutputs[1].Value.Big(), minValid); want.Cmp(locked.Big()) != 0 {
 		mon("locked-collateral-differs-from-payout-minus-prices", fmt.Sprintf("%s: got %v want %v", what, locked.ExactString(), want))
 	}
+}
+
+// c12UC: the unlock conditions of a contract between the two keys - the renter's key first,
+// both signatures required - written out here instead of calling the package-private
+// contractUnlockConditions: an oracle that does not depend on the code under test, and that
+// survives a refactoring which inlines or renames that helper.
+func c12UC(hostKey, renterKey types.UnlockKey) types.UnlockConditions {
+	return types.UnlockConditions{PublicKeys: []types.UnlockKey{renterKey, hostKey}, SignaturesRequired: 2}
 }
